@@ -137,6 +137,7 @@ type exchange struct {
 	abortUploadAt   int // -1: no
 	abortDownloadAt int // -1: no; close after this many body bytes
 	noRead   bool
+	expect   string        // "" | "accept" | "decline": the client sends Expect: 100-continue and waits for the go-ahead; the backend sends 100 and reads the body / answers finally without reading it
 	pause    time.Duration // the client waits this long before sending
 	resp     *respScript
 	// observed
@@ -387,7 +388,18 @@ func (b *sBackend) serve(c net.Conn) {
 		env.mu.Unlock()
 		sr := &seenReq{backend: b.name, method: req.Method, target: req.RequestURI, proto: req.Proto, hdr: req.Header.Clone(), host: req.Host, at: env.x.Now(),
 			chunked: len(req.TransferEncoding) > 0 && req.TransferEncoding[0] == "chunked", clen: req.ContentLength}
-		body, berr := io.ReadAll(req.Body)
+		var body []byte
+		var berr error
+		switch {
+		case ex != nil && ex.expect == "decline":
+			// answers finally without asking for (or reading) the body; the connection ends
+			sr.bodyErr = "not-read"
+		case ex != nil && ex.expect == "accept":
+			io.WriteString(c, "HTTP/1.1 100 Continue\r\n\r\n")
+			body, berr = io.ReadAll(req.Body)
+		default:
+			body, berr = io.ReadAll(req.Body)
+		}
 		sr.body = body
 		if berr != nil {
 			sr.bodyErr = berr.Error()
@@ -594,6 +606,7 @@ func buildRequestHead(ex *exchange) []byte {
 		b.WriteString(kv.K + ": " + kv.V + "\r\n")
 	}
 	fmt.Fprintf(&b, "X-Sim-Token: %d\r\n", ex.id)
+
 	if ex.chunked {
 		b.WriteString("Transfer-Encoding: chunked\r\n")
 	} else if len(ex.body) > 0 || ex.method == "POST" || ex.method == "PUT" || ex.method == "PATCH" {
@@ -646,11 +659,28 @@ func (c *sClient) runOnce(ex *exchange) {
 	conn := c.conn
 	got := &gotResp{}
 	// writer: head, then the body in pieces
+	proceed := make(chan struct{})
+	var proceedOnce sync.Once
+	goAhead := func() { proceedOnce.Do(func() { close(proceed) }) }
+	defer goAhead()
 	wdone := make(chan struct{})
 	go func() {
 		defer close(wdone)
 		if _, err := conn.Write(buildRequestHead(ex)); err != nil {
 			return
+		}
+		if ex.expect != "" {
+			// like curl: wait for "100 Continue" (or a final answer), at most 600 ms, then send
+			select {
+			case <-proceed:
+			case <-time.After(600 * time.Millisecond):
+			}
+			env.mu.Lock()
+			final := got.status != 0
+			env.mu.Unlock()
+			if final {
+				return // answered without wanting the body
+			}
 		}
 		rest := ex.body
 		sent := 0
@@ -715,9 +745,15 @@ func (c *sClient) runOnce(ex *exchange) {
 		}
 		if resp.StatusCode/100 == 1 && resp.StatusCode != 101 {
 			got.interim = append(got.interim, resp.StatusCode)
+			if resp.StatusCode == 100 {
+				goAhead()
+			}
 			continue
 		}
+		env.mu.Lock()
 		got.status, got.proto, got.hdr = resp.StatusCode, resp.Proto, resp.Header.Clone()
+		env.mu.Unlock()
+		goAhead()
 		got.headAt = env.x.Now()
 		got.clen = resp.ContentLength
 		got.chunked = len(resp.TransferEncoding) > 0 && resp.TransferEncoding[0] == "chunked"
